@@ -236,28 +236,37 @@ def main(tier_: str) -> int:
                     if not p1['patch_location']:
                         lines.append({'ev': 'nopatch', 'url': url})
                         continue
-                    da.clock.set(t2)
                     from harness.httplive import path_of
-                    rp = c.get(path_of(p1['patch_location']))
-                    r2 = c.get(url)
-                    if rp.status_code != 200 or r2.status_code != 200:
-                        lines.append({'ev': 'patch_refused', 'url': p1['patch_location'], 'status': rp.status_code,
-                                      'exc': da.exceptions[-1] if da.exceptions else {}})
-                        continue
-                    patched, info = apply_patch(r1.data, rp.data)
-                    pp = M.project(patched, 'http://localhost' + url)
-                    p2 = M.project(r2.data, 'http://localhost' + url)
-                    tp, tf = timelines(pp), timelines(p2)
-                    allt = [x['t'] for tl in tp + tf for x in tl]
-                    b = min(allt) if allt else 0
-                    rb = lambda tls: [[{'t': x['t'] - b, 'd': x['d']} for x in tl] for tl in tls]    # noqa: E731
-                    lines.append({'ev': 'patch', 'url': url, 't1': t1.isoformat(), 't2': t2.isoformat(), 'patch_url': p1['patch_location'],
-                                  'id_eq': 1 if info['mpdId'] == p1['id'] else 0,
-                                  'orig_pub': inst(M.parse_datetime(info['originalPublishTime'] or '')), 'pub1': inst(p1['publishTime']),
-                                  'pub_patched': inst(pp['publishTime']), 'pub_full': inst(p2['publishTime']),
-                                  'loc_eq': 1 if pp['patch_location'] == p2['patch_location'] and pp['patch_ttl'] == p2['patch_ttl'] else 0,
-                                  'tls_patched': rb(tp), 'tls_full': rb(tf), 'ops': info['ops'], 'unresolved': info['unresolved'],
-                                  'ast_moved': 0 if p1['availabilityStartTime'] == p2['availabilityStartTime'] else 1})
+                    # a patch session: the PatchLocation of the document the client holds is fetched, the patch applied, and the
+                    # patched document is the one the next patch applies to (chain of up to three patches, each compared with the
+                    # full manifest of its instant)
+                    doc, pd, ta, tb = r1.data, p1, t1, t2
+                    for chain in (1, 2, 3):
+                        da.clock.set(tb)
+                        rp = c.get(path_of(pd['patch_location']))
+                        r2 = c.get(url)
+                        if rp.status_code != 200 or r2.status_code != 200:
+                            lines.append({'ev': 'patch_refused', 'url': pd['patch_location'], 'status': rp.status_code, 'chain': chain,
+                                          'exc': da.exceptions[-1] if da.exceptions else {}})
+                            break
+                        patched, info = apply_patch(doc, rp.data)
+                        pp = M.project(patched, 'http://localhost' + url)
+                        p2 = M.project(r2.data, 'http://localhost' + url)
+                        tp, tf = timelines(pp), timelines(p2)
+                        allt = [x['t'] for tl in tp + tf for x in tl]
+                        b = min(allt) if allt else 0
+                        rb = lambda tls: [[{'t': x['t'] - b, 'd': x['d']} for x in tl] for tl in tls]    # noqa: E731
+                        lines.append({'ev': 'patch', 'url': url, 't1': ta.isoformat(), 't2': tb.isoformat(), 'patch_url': pd['patch_location'], 'chain': chain,
+                                      'id_eq': 1 if info['mpdId'] == pd['id'] else 0,
+                                      'orig_pub': inst(M.parse_datetime(info['originalPublishTime'] or '')), 'pub1': inst(pd['publishTime']),
+                                      'pub_patched': inst(pp['publishTime']), 'pub_full': inst(p2['publishTime']),
+                                      'loc_eq': 1 if pp['patch_location'] == p2['patch_location'] and pp['patch_ttl'] == p2['patch_ttl'] else 0,
+                                      'tls_patched': rb(tp), 'tls_full': rb(tf), 'ops': info['ops'], 'unresolved': info['unresolved'],
+                                      'ast_moved': 0 if pd['availabilityStartTime'] == p2['availabilityStartTime'] else 1})
+                        if not pp['patch_location'] or pp['publishTime'] != p2['publishTime']:
+                            break        # the session has already parted from the full manifests: later steps would repeat the report
+                        doc, pd, ta = patched, pp, tb
+                        tb = tb + datetime.timedelta(seconds=rng.choice([2, 4.5, 8, 13, 29]))
             # ---- (D) player sessions: chains of refreshes and in-order fetches through time ------------------------
             from harness.httplive import HttpDriver
             from harness.session import play
@@ -299,7 +308,7 @@ def main(tier_: str) -> int:
         seen: set[str] = set()
         for v in vs:
             lo = v['lineobj']
-            case = {k: lo.get(k) for k in ('ev', 'layer', 'lay', 'e', 'dl', 'o', 'url', 't1', 't2', 'patch_url', 'ops', 'unresolved', 'ast_moved')}
+            case = {k: lo.get(k) for k in ('ev', 'layer', 'lay', 'e', 'dl', 'o', 'url', 't1', 't2', 'patch_url', 'ops', 'unresolved', 'ast_moved', 'chain')}
             case['detail'] = v['detail']
             key = f"{v['clause']}|{lo.get('layer')}|{lo.get('lay')}|{(lo.get('url') or '')[:60]}"
             if key in seen:
@@ -315,7 +324,7 @@ def main(tier_: str) -> int:
             'states': ra.distinct, 'transitions': ra.generated, 'traces_validated_against_impl': len(lines),
             'evaluations': len(lines), 'distinct_nontrivial': len({(str(x['tl1'][:2]), str(x['tl2'][:2]), len(x['tl1']), len(x['tl2'])) for x in pairs if x['tl1'] and x['tl2']}),
             'rule': 'one evaluation per (T1, T2) pair of one Representation, or per patch; distinct = distinct pairs of (first entries, lengths) of the two timelines',
-            'exhaustive': False, 'pure_pairs': npure, 'http_pairs': len(pairs) - npure, 'patches': len(patches),
+            'exhaustive': False, 'pure_pairs': npure, 'http_pairs': len(pairs) - npure, 'patches': len(patches), 'patch_chain_steps': {str(k): sum(1 for x in patches if x.get('chain') == k) for k in (1, 2, 3)},
             'patch_ops_applied': sum(x['ops'] for x in patches), 'patch_unresolved': sum(x['unresolved'] for x in patches),
             'refused_or_skipped': len(other),
             'samples': [pairs[0], {k: patches[0][k] for k in patches[0] if k not in ('tls_patched', 'tls_full')}],
